@@ -417,8 +417,14 @@ func genOptsTok(r *common.Rng, rich bool) string {
 func genPathTok(r *common.Rng) string {
 	base := "c" + strconv.Itoa(r.Intn(cidU))
 	tail := pathTails[r.Intn(len(pathTails))]
-	if r.Chance(1, 8) {
-		tail = append(append([]string{}, tail...), "odd"+strconv.Itoa(r.Range(1, 6))) // a file name with URL-significant characters
+	if r.Chance(1, 6) {
+		tail = append(append([]string{}, tail...), "odd"+strconv.Itoa(r.Range(1, 8))) // a file name with URL-significant characters
+	}
+	if r.Chance(1, 12) {
+		// a path that is not in canonical form: the router redirects it, net/http's client follows as GET
+		nc := [][]string{{"e", "b"}, {"dot", "b"}, {"a", "dotdot"}, {"a", "e"}, {"dotdot", "dotdot"}, {"dotdot", "dotdot", "c4"},
+			{"dotdot", "dotdot", "dotdot", "id"}, {"dotdot", "dotdot", "dotdot", "health", "graph"}, {"a", "dotdot", "dotdot", "dotdot"}}
+		tail = append(append([]string{}, tail...), nc[r.Intn(len(nc))]...)
 	}
 	switch weighted(r, 6, 2, 2, 2, 1, 1) {
 	case 0:
@@ -485,8 +491,8 @@ func genCli(r *common.Rng, call string) cliCase {
 		c.l = b01(r.Bool())
 	case "Metrics":
 		c.a = metricNames[r.Intn(4)]
-		if r.Chance(1, 6) {
-			c.a = "odd" + strconv.Itoa(r.Range(1, 6))
+		if r.Chance(1, 5) {
+			c.a = "odd" + strconv.Itoa(r.Range(1, 8))
 		}
 	}
 	return c
